@@ -71,7 +71,8 @@ Theorem C19_screen_layout :
   forall v st addr st',
     update_screen (Some v) st addr = ROk st' ->
     s_width st' = s_width st /\ s_height st' = s_height st /\ s_bpp st' = s_bpp st /\ s_palette st' = s_palette st /\
-    s_frames st' = (s_pix st', s_palette st') :: s_frames st /\
+    s_frames st' = (s_pix st', s_palette st', expand (s_palette st') (s_pix st')) :: s_frames st /\
+  s_rgb st' = expand (s_palette st') (s_pix st') /\
     length (s_pix st') = N.to_nat (s_width st * s_height st) /\
     forall x y, x < s_width st -> y < s_height st ->
       nthN (s_pix st') (x + y * s_width st) =
@@ -98,7 +99,8 @@ Theorem C19_rectangle_only_box :
     update_rectangle (Some v) st x y rw rh addr = ROk st' ->
     x + rw <= s_width st /\ y + rh <= s_height st /\
     s_width st' = s_width st /\ s_height st' = s_height st /\ s_palette st' = s_palette st /\
-    s_frames st' = (s_pix st', s_palette st') :: s_frames st /\
+    s_frames st' = (s_pix st', s_palette st', expand (s_palette st') (s_pix st')) :: s_frames st /\
+  s_rgb st' = expand (s_palette st') (s_pix st') /\
     length (s_pix st') = length (s_pix st) /\
     forall px py, px < s_width st -> py < s_height st ->
       nthN (s_pix st') (px + py * s_width st) =
@@ -128,7 +130,7 @@ Example C19_screen_frame :
   let mv := Some (view_of 4 AdNative d) in
   view_ok mv /\
   let '(st, e) := decode mv sinit [1; 2; 0; 1; 0; 4; 0; 0;  3; 64; 0] in
-  (e, rev (s_frames st)) = (None, [([1; 2], [])]).
+  (e, rev (s_frames st)) = (None, [([1; 2], [], [(0, 0, 0); (0, 0, 0)])]).
 Proof. vm_compute. split; [discriminate|reflexivity]. Qed.
 
 (* malformed streams end in a device error *)
@@ -143,4 +145,17 @@ Proof. vm_compute. repeat split. Qed.
    C19_screen_total is needed *)
 Example C19_screen_w8_raw :
   snd (decode (Some (mksv 8 (fun _ => 0))) sinit [1; 1; 0; 1; 0; 8; 0; 0;  3; 0]) = Some (inr RValueError).
+Proof. vm_compute. reflexivity. Qed.
+
+(* palette cycling: the same pixel indices presented twice with a set_palette in between give two different RGB
+   frames - every present expands the indices through the palette current at that present *)
+Example C19_palette_cycle :
+  let b x := x * 32 in
+  let d := mkdv (mem_of_list [(5, b 0); (7, b 1);                                        (* framebuffer at 64 *)
+                              (17, b 10); (19, b 20); (21, b 30); (23, b 200); (25, b 100); (27, b 0);       (* palette A at 256 *)
+                              (33, b 1); (35, b 2); (37, b 3); (39, b 250); (41, b 251); (43, b 252)]) [] in  (* palette B at 512 *)
+  let '(st, e) := decode (Some (view_of 4 AdNative d)) sinit
+                    [1; 2; 0; 1; 0; 8; 2; 0;  2; 0; 1;  3; 64; 0;  2; 0; 2;  3; 64; 0] in
+  (e, map (fun f => (fst (fst f), snd f)) (rev (s_frames st)), s_rgb st) =
+  (None, [([0; 1], [(10, 20, 30); (200, 100, 0)]); ([0; 1], [(1, 2, 3); (250, 251, 252)])], [(1, 2, 3); (250, 251, 252)]).
 Proof. vm_compute. reflexivity. Qed.
